@@ -178,6 +178,8 @@ def check_date(part, Date, n, y, m, d, only=None):
     except Exception as ex:
         bad('raises/%s' % type(ex).__name__, 'raised %r' % (ex,))
     part.outcome(('date', 'leap-feb29' if (m, d) == (2, 29) else 'pre-1970' if n < 0 else 'post-1970'))
+    if (m, d) == (2, 29):
+        part.sample({'date': s, 'days_from_epoch': n, 'str(Date(n))': str(Date(n))}, limit=1)
     if n % 146097 in (0, 1) or (m, d) in ((2, 29), (12, 31), (1, 1), (3, 1)) or y < 1000:
         part.mark_nontrivial('d%d' % n)
 
@@ -288,6 +290,8 @@ def check_time(part, Time, v):
     except Exception as ex:
         bad('raises/%s' % type(ex).__name__, 'raised %r' % (ex,))
     part.outcome(('time', 'sub-us' if v % 1000 else 'whole-us'))
+    if v % 1000 and v > 10 ** 12:
+        part.sample({'ns': v, 'str(Time(ns))': str(Time(v))}, limit=1)
     if v % 1000 or v % 10 ** 9 == 0 or v < 1000:
         part.mark_nontrivial('t%d' % v)
 
@@ -427,6 +431,8 @@ def check_uuid_instant(part, cu, name, us, only=None):
             bad('raises/%s' % type(ex).__name__, 'raised %r' % (ex,))
     part.outcome(('uuid', name))
     part.mark_nontrivial('u%d' % us)
+    if 'datetime' in lo_hi:
+        part.sample({'instant': dt.isoformat(), 'min_uuid': str(lo_hi['datetime'][0]), 'max_uuid': str(lo_hi['datetime'][1])}, limit=1)
     return lo_hi
 
 
